@@ -49,6 +49,7 @@ fn main() {
         "ws-c15" => life::run(&a),
         "w5" => w5::run(&a),
         "vs-c09" => vs::c09(&a),
+        "vs-c09-vec" => vs::c09_vec(&a),
         "vs-c10" => vs::c10(&a),
         "vs-pull-child" => vs::pull_child(&a),
         other => {
